@@ -217,3 +217,39 @@ Proof.
   pose proof default_refuted as H. inversion H as [|c l Hc _]. subst. eexists. exact Hc.
 Qed.
 Print Assumptions C03_hcl_refuted.
+
+(** 5. C03_sql.  The SQL export is the plan of (nothing -> inspected schema): cmdlog.sqlInspect =
+    fmtPlan(ChangesToRealm(realm)), one AddTable per inspected table in inspection order, dump mode
+    ([plan_dump]); over the shared model of planner, engine and inspector (Sqlite/PlanModel.v,
+    EngineModel.v, InspectModel.v, tied by C01's stages) it is the plan [diff_and_plan] computes from an
+    empty database, so it is a corollary of C01_create_converges.  Full statement:
+        forall db, inspect (exec_all empty (plan_dump (inspect db))) ~ inspect db   (diff empty both ways).
+    Proved: for every database whose inspected schema is within C01's decidable [supported] (typed
+    columns, no generated index names, names that do not clash with the planner's new_<table>, ...), the
+    export plans, executes without error on an empty engine, and the differ finds no change from the
+    re-created database to the original.  Missing: the other direction of the diff, and the inspected
+    schemas outside [supported] (C01's refuted witnesses: PRIMARY KEY (b, a), PRIMARY KEY (a DESC), ...
+    -- the same inputs the oracle reports as C03-pk-order / C03-pk-desc). *)
+From Atlas Require Import Sqlite.EngineModel Sqlite.InspectModel Sqlite.ConvergeSupported Sqlite.ExportSqlProofs.
+Theorem C03_sql_partial :
+  forall nm d, supported empty_db (inspect d) = true ->
+  exists p d', plan_dump (inspect d) = Some p /\ exec_all empty_db (plan_stmts p) = Ok d' /\
+    sqlite_schema_diff no_skip (inspect_schema nm d') (inspect_schema nm d) = Some [].
+Proof. exact sql_export_faithful. Qed.
+Print Assumptions C03_sql_partial.
+
+Example C03_sql_nonvacuous : supported empty_db (inspect w_db) = true /\ List.length (inspect w_db) = 1%nat.
+Proof. exact w_db_supported. Qed.
+
+(** 6. C03_stable: the inspection is a function of the catalogue -- two databases with the same tables
+    (whatever their rows, flags or transaction state) are inspected identically; in particular inspecting
+    twice gives the same schema, hence the same HCL and SQL ([hcl_roundtrip], [plan_dump], [print_table]
+    are functions).  Trivial in Gallina; the content that is not -- no dependence on Go map iteration
+    order in schemahcl -- is C20's (fixes 4422ee4, 7161040, 0d778d1), and is checked here by the oracle
+    (hcl-unstable / sql-unstable symptoms, in process and through the CLI). *)
+Theorem C03_stable :
+  forall d1 d2, db_tables d1 = db_tables d2 ->
+  inspect d1 = inspect d2 /\ plan_dump (inspect d1) = plan_dump (inspect d2) /\
+  hcl_roundtrip (inspect d1) = hcl_roundtrip (inspect d2).
+Proof. intros d1 d2 H. rewrite (inspect_stable d1 d2 H). auto. Qed.
+Print Assumptions C03_stable.
